@@ -87,7 +87,7 @@ func runC02(r *R) {
 	r.Assume = []string{"POSIX rename(2) is atomic with respect to process death", "ioutil.TempFile creates a new file with a name extending the given prefix"}
 
 	// ---- R1
-	r.Rule("C02-R1", "UnixVolume.WriteBlock: TempFile → io.Copy → Close → Chtimes → Rename(tmp, blockPath(loc)) each checked nil, in order, before every nil return", 5)
+	r.Rule("C02-R1", "UnixVolume.WriteBlock: TempFile → io.Copy → Close → Chtimes → Rename(tmp, blockPath(loc)) each checked nil, in order, before every nil return", 1)
 	if fn := r.NeedFn("C02-R1", fnWrite); fn != nil {
 		loc := paramOf(fn, "loc")
 		rdr := paramOf(fn, "rdr")
@@ -309,7 +309,7 @@ func runC02(r *R) {
 	}
 
 	// ---- R6
-	r.Rule("C02-R6", "handlePUT acknowledges (locator body, X-Keep-Replicas-Stored) only under PutBlock err==nil; PutBlock returns replication only after Put==nil or via CompareAndTouch", 4)
+	r.Rule("C02-R6", "handlePUT acknowledges (locator body, X-Keep-Replicas-Stored) only under PutBlock err==nil; PutBlock returns replication only after Put==nil or via CompareAndTouch", 2)
 	if fn := r.NeedFn("C02-R6", "(*"+ks+".router).handlePUT"); fn != nil {
 		if pb := r.onlyCall("C02-R6", fn, ks+".PutBlock"); pb != nil {
 			guard := ErrNilC(pb)
